@@ -246,8 +246,8 @@ package sbom
 //@   props C11, C16
 //@   inline
 //@   assigns \nothing
-//@   ensures [C16:hashesMatch] result <==> (len(n.Hashes) > 0 && len(th) > 0 && (exists a int32 :: (a in th) && (a in n.Hashes)) && (forall b int32 :: (b in th) && (b in n.Hashes) ==> n.Hashes[b] == th[b]))
-//@   invariant L0: len(n.Hashes) > 0 && len(th) > 0 && (forall c int32 :: (c in _V) ==> (c in th)) && (atLeastOneMatch <==> (exists a int32 :: (a in _V) && (a in n.Hashes))) && (forall b int32 :: (b in _V) && (b in n.Hashes) ==> n.Hashes[b] == th[b])
+//@   ensures [C16:hashesMatch] result <==> hashesMatch(n, th)
+//@   invariant L0: len(n.Hashes) > 0 && len(th) > 0 && (forall c int32 :: (c in _V) ==> (c in th)) && (atLeastOneMatch <==> (exists a int32 :: (a in _V) && (a in n.Hashes) && th[a] != "" && n.Hashes[a] != "")) && (forall b int32 :: (b in _V) && (b in n.Hashes) && th[b] != "" && n.Hashes[b] != "" ==> n.Hashes[b] == th[b])
 
 //@ func NodeList.GetNodesByName
 //@   props C11, C16
@@ -287,10 +287,43 @@ package sbom
 //@   requires d.NodeList != nil
 //@   assigns \nothing
 
+// the rule of Node.HashesMatch: both sides have hashes, at least one algorithm is common and all common ones agree;
+// an algorithm is common when both sides carry a non-empty value for it
+//@ pred hashesMatch(n *Node, th map[int32]string) = len(n.Hashes) > 0 && len(th) > 0 && (exists a int32 :: (a in th) && (a in n.Hashes) && th[a] != "" && n.Hashes[a] != "") && (forall b int32 :: (b in th) && (b in n.Hashes) && th[b] != "" && n.Hashes[b] != "" ==> n.Hashes[b] == th[b])
+
 //@ func NodeList.GetMatchingNode
-//@   props C11
+//@   props C11, C16
 //@   requires node != nil
+//@   requires [C16:pre] validNL(nl) && uniqueById(nl)
 //@   assigns \nothing
+//@   ensures [C16:match:inList] result0 != nil ==> (result0 in elems(nl.Nodes))
+//@   ensures [C16:match:rule] result0 != nil ==> hashesMatch(result0, node.Hashes) || (purlOf(node) != "" && purlOf(result0) == purlOf(node))
+//@   ensures [C16:match:err] result0 != nil ==> result1 == nil
+//@   ensures [C16:match:hashFirst] forall i int :: 0 <= i && i < len(nl.Nodes) && hashesMatch(nl.Nodes[i], node.Hashes) && result0 != nil ==> hashesMatch(result0, node.Hashes)
+//@   ensures [C16:match:uniqueHash] forall i int :: 0 <= i && i < len(nl.Nodes) && hashesMatch(nl.Nodes[i], node.Hashes) && (forall q *Node :: (q in elems(nl.Nodes)) && hashesMatch(q, node.Hashes) ==> q == nl.Nodes[i]) ==> result0 == nl.Nodes[i] && result1 == nil
+//@   ensures [C16:match:ambiguous] forall i int, j int :: 0 <= i && i < len(nl.Nodes) && 0 <= j && j < len(nl.Nodes) && hashesMatch(nl.Nodes[i], node.Hashes) && hashesMatch(nl.Nodes[j], node.Hashes) && nl.Nodes[i].Id != nl.Nodes[j].Id && purlOf(node) == "" ==> result0 == nil && result1 == ErrorMoreThanOneMatch
+//@   ensures [C16:match:none] (forall q *Node :: (q in elems(nl.Nodes)) ==> !hashesMatch(q, node.Hashes)) && (purlOf(node) == "" || (forall q *Node :: (q in elems(nl.Nodes)) ==> purlOf(q) != purlOf(node))) ==> result0 == nil && result1 == nil
+//@   ensures [C16:match:purlFallback] (forall q *Node :: (q in elems(nl.Nodes)) ==> !hashesMatch(q, node.Hashes)) && purlOf(node) != "" ==> (forall i int :: 0 <= i && i < len(nl.Nodes) && purlOf(nl.Nodes[i]) == purlOf(node) && result0 != nil ==> result0 == nl.Nodes[i])
+//@   ensures [C16:match:purlAmbiguous] (forall q *Node :: (q in elems(nl.Nodes)) ==> !hashesMatch(q, node.Hashes)) && purlOf(node) != "" ==> (forall i int, j int :: 0 <= i && i < len(nl.Nodes) && 0 <= j && j < len(nl.Nodes) && purlOf(nl.Nodes[i]) == purlOf(node) && purlOf(nl.Nodes[j]) == purlOf(node) && nl.Nodes[i] != nl.Nodes[j] ==> result0 == nil && result1 == ErrorMoreThanOneMatch)
+//@   ensures [C16:match:tieBreak] forall i int, j int, m int :: 0 <= i && i < len(nl.Nodes) && 0 <= j && j < len(nl.Nodes) && hashesMatch(nl.Nodes[i], node.Hashes) && hashesMatch(nl.Nodes[j], node.Hashes) && nl.Nodes[i].Id != nl.Nodes[j].Id && 0 <= m && m < len(nl.Nodes) && hashesMatch(nl.Nodes[m], node.Hashes) && purlOf(nl.Nodes[m]) == purlOf(node) && result0 != nil ==> result0 == nl.Nodes[m]
+//@   ensures [C16:match:tieBreakSound] forall i int, j int :: 0 <= i && i < len(nl.Nodes) && 0 <= j && j < len(nl.Nodes) && hashesMatch(nl.Nodes[i], node.Hashes) && hashesMatch(nl.Nodes[j], node.Hashes) && nl.Nodes[i].Id != nl.Nodes[j].Id && result0 != nil ==> purlOf(node) != "" && purlOf(result0) == purlOf(node)
+//@   ensures [C16:match:tieBreakNone] forall i int, j int :: 0 <= i && i < len(nl.Nodes) && 0 <= j && j < len(nl.Nodes) && hashesMatch(nl.Nodes[i], node.Hashes) && hashesMatch(nl.Nodes[j], node.Hashes) && nl.Nodes[i].Id != nl.Nodes[j].Id && (forall q *Node :: (q in elems(nl.Nodes)) && hashesMatch(q, node.Hashes) ==> purlOf(q) != purlOf(node)) ==> result0 == nil && result1 == ErrorMoreThanOneMatch
+//@   ensures [C16:match:tieBreakAmbiguous] forall i int, j int :: 0 <= i && i < len(nl.Nodes) && 0 <= j && j < len(nl.Nodes) && hashesMatch(nl.Nodes[i], node.Hashes) && hashesMatch(nl.Nodes[j], node.Hashes) && nl.Nodes[i].Id != nl.Nodes[j].Id && purlOf(nl.Nodes[i]) == purlOf(node) && purlOf(nl.Nodes[j]) == purlOf(node) ==> result0 == nil && result1 == ErrorMoreThanOneMatch
+//@   invariant L2: [C16:inv] testPurl == purlOf(node) && testPurl != "" && 0 <= len(foundByPurl)
+//@   invariant L2: [C16:inv] forall k string :: (k in _V) && purlOf(foundNodes[k]) == testPurl ==> len(foundByPurl) >= 1 && (len(foundByPurl) == 1 ==> foundByPurl[0] == foundNodes[k])
+//@   invariant L2: [C16:inv] forall k1 string, k2 string :: (k1 in _V) && (k2 in _V) && k1 != k2 && purlOf(foundNodes[k1]) == testPurl && purlOf(foundNodes[k2]) == testPurl ==> len(foundByPurl) >= 2
+//@   invariant L2: [C16:inv] forall k string :: (k in _V) ==> (k in foundNodes)
+//@   invariant L0: [C16:inv] foundNodes != nil && fresh(foundNodes) && (forall k string :: (k in foundNodes) ==> foundNodes[k].Id == k && foundNodes[k] != nil && (foundNodes[k] in elems(nl.Nodes)) && hashesMatch(foundNodes[k], node.Hashes))
+//@   invariant L0: [C16:inv] hashIndex != nil && (forall k string, j int :: (k in hashIndex) && 0 <= j && j < len(hashIndex[k]) ==> hashIndex[k][j] != nil && (hashIndex[k][j] in elems(nl.Nodes)))
+//@   invariant L0: [C16:inv] forall i int, a int32 :: 0 <= i && i < len(nl.Nodes) && (a in nl.Nodes[i].Hashes) && nl.Nodes[i].Hashes[a] != "" ==> inBucket(hashIndex, hashkey(a, nl.Nodes[i].Hashes[a]), nl.Nodes[i])
+//@   invariant L0: [C16:inv] forall i int, a int32 :: 0 <= i && i < len(nl.Nodes) && hashesMatch(nl.Nodes[i], node.Hashes) && (a in _V) && (a in nl.Nodes[i].Hashes) && node.Hashes[a] != "" && nl.Nodes[i].Hashes[a] == node.Hashes[a] ==> (nl.Nodes[i].Id in foundNodes)
+//@   invariant L1: [C16:inv] foundNodes != nil && fresh(foundNodes) && (forall k string :: (k in foundNodes) ==> foundNodes[k].Id == k && foundNodes[k] != nil && (foundNodes[k] in elems(nl.Nodes)) && hashesMatch(foundNodes[k], node.Hashes))
+//@   invariant L1: [C16:inv] hashIndex != nil && (forall k string, j int :: (k in hashIndex) && 0 <= j && j < len(hashIndex[k]) ==> hashIndex[k][j] != nil && (hashIndex[k][j] in elems(nl.Nodes)))
+//@   invariant L1: [C16:inv] forall i int, a int32 :: 0 <= i && i < len(nl.Nodes) && (a in nl.Nodes[i].Hashes) && nl.Nodes[i].Hashes[a] != "" ==> inBucket(hashIndex, hashkey(a, nl.Nodes[i].Hashes[a]), nl.Nodes[i])
+//@   invariant L1: [C16:inv] (algo in node.Hashes) && node.Hashes[algo] == hashVal && (hashkey(algo, hashVal) in hashIndex)
+//@   invariant L1: [C16:inv] forall i int, a int32 :: 0 <= i && i < len(nl.Nodes) && hashesMatch(nl.Nodes[i], node.Hashes) && (a in _V1) && a != algo && (a in nl.Nodes[i].Hashes) && node.Hashes[a] != "" && nl.Nodes[i].Hashes[a] == node.Hashes[a] ==> (nl.Nodes[i].Id in foundNodes)
+//@   invariant L1: [C16:inv] forall j int :: 0 <= j && j < _i && hashesMatch(hashIndex[hashkey(algo, hashVal)][j], node.Hashes) ==> (hashIndex[hashkey(algo, hashVal)][j].Id in foundNodes)
+//@   invariant L2: [C16:inv] forall a int :: 0 <= a && a < len(foundByPurl) ==> foundByPurl[a] != nil && (foundByPurl[a] in elems(nl.Nodes)) && hashesMatch(foundByPurl[a], node.Hashes) && purlOf(foundByPurl[a]) == testPurl
 
 //@ func NodeList.GetEdgeByType
 //@   props C11, C16
@@ -335,15 +368,47 @@ package sbom
 //@   ensures [C08:indexRoots:keys] result != nil && fresh(result) && (forall k string :: (k in result) <==> (k in elems(nl.RootElements)))
 //@   invariant L0: [C08:idx] index != nil && fresh(index) && (forall k string :: (k in index) <==> (k in elemsn(nl.RootElements, _i)))
 
-//@ func NodeList.indexNodesByHash
-//@   props C11
-//@   inline
-//@   assigns \nothing
+// the purl a node is looked up by ("" for files and for nodes without one): the value of Node.Purl
+//@ pred purlOf(n *Node) = (n.Type == 1 ? "" : ((1 in n.Identifiers) ? n.Identifiers[1] : ""))
 
-//@ func NodeList.indexNodesByPurl
-//@   props C11
-//@   inline
+// hash index: every bucket entry is a node of the list that carries the hash
+// the bucket key names (key = fmt.Sprintf("%d:%s", algo, value), trusted injective)
+//@ pred inBucket(m hashIndex, k string, p *Node) = (k in m) && (exists j int :: 0 <= j && j < len(m[k]) && m[k][j] == p)
+//@ func NodeList.indexNodesByHash
+//@   props C11, C16
 //@   assigns \nothing
+//@   requires [C16:pre] validNL(nl)
+//@   ensures [C16:hashIndex:shape] result != nil && fresh(result) && (forall k string :: (k in result) ==> cap(result[k]) == 0 || fresh(arr(result[k])))
+//@   ensures [C16:hashIndex:sound] forall k string, j int :: (k in result) && 0 <= j && j < len(result[k]) ==> result[k][j] != nil && (result[k][j] in elems(nl.Nodes)) && k == hashkey(hashkeyalgo(k), hashkeyval(k)) && (hashkeyalgo(k) in result[k][j].Hashes) && result[k][j].Hashes[hashkeyalgo(k)] == hashkeyval(k)
+//@   ensures [C16:hashIndex:complete] forall i int, a int32 :: 0 <= i && i < len(nl.Nodes) && (a in nl.Nodes[i].Hashes) && nl.Nodes[i].Hashes[a] != "" ==> inBucket(result, hashkey(a, nl.Nodes[i].Hashes[a]), nl.Nodes[i])
+//@   invariant L0: [C16:inv] forall i int, a int32 :: 0 <= i && i < _i && (a in nl.Nodes[i].Hashes) && nl.Nodes[i].Hashes[a] != "" ==> inBucket(ret, hashkey(a, nl.Nodes[i].Hashes[a]), nl.Nodes[i])
+//@   invariant L1: [C16:inv] 0 <= _i1 && _i1 < len(nl.Nodes) && n == nl.Nodes[_i1]
+//@   invariant L1: [C16:inv] forall i int, a int32 :: 0 <= i && i < _i1 && (a in nl.Nodes[i].Hashes) && nl.Nodes[i].Hashes[a] != "" ==> inBucket(ret, hashkey(a, nl.Nodes[i].Hashes[a]), nl.Nodes[i])
+//@   invariant L1: [C16:inv] forall a int32 :: (a in _V) && n.Hashes[a] != "" ==> inBucket(ret, hashkey(a, n.Hashes[a]), n)
+//@   invariant L0: ret != nil && fresh(ret) && (forall k string :: (k in ret) ==> cap(ret[k]) == 0 || fresh(arr(ret[k])))
+//@   invariant L0: [C16:inv] forall k1 string, k2 string :: (k1 in ret) && (k2 in ret) && k1 != k2 ==> cap(ret[k1]) == 0 || arr(ret[k1]) != arr(ret[k2])
+//@   invariant L0: [C16:inv] forall k string :: (k in ret) ==> 0 <= len(ret[k]) && len(ret[k]) <= cap(ret[k]) && allocated(arr(ret[k]))
+//@   invariant L0: [C16:inv] forall k string, j int :: (k in ret) && 0 <= j && j < len(ret[k]) ==> ret[k][j] != nil && (ret[k][j] in elems(nl.Nodes)) && k == hashkey(hashkeyalgo(k), hashkeyval(k)) && (hashkeyalgo(k) in ret[k][j].Hashes) && ret[k][j].Hashes[hashkeyalgo(k)] == hashkeyval(k)
+//@   invariant L1: n != nil && (n in elems(nl.Nodes)) && ret != nil && fresh(ret) && (forall k string :: (k in ret) ==> cap(ret[k]) == 0 || fresh(arr(ret[k])))
+//@   invariant L1: [C16:inv] forall k1 string, k2 string :: (k1 in ret) && (k2 in ret) && k1 != k2 ==> cap(ret[k1]) == 0 || arr(ret[k1]) != arr(ret[k2])
+//@   invariant L1: [C16:inv] forall k string :: (k in ret) ==> 0 <= len(ret[k]) && len(ret[k]) <= cap(ret[k]) && allocated(arr(ret[k]))
+//@   invariant L1: [C16:inv] forall k string, j int :: (k in ret) && 0 <= j && j < len(ret[k]) ==> ret[k][j] != nil && (ret[k][j] in elems(nl.Nodes)) && k == hashkey(hashkeyalgo(k), hashkeyval(k)) && (hashkeyalgo(k) in ret[k][j].Hashes) && ret[k][j].Hashes[hashkeyalgo(k)] == hashkeyval(k)
+
+//@ pred inPBucket(m map[PackageURL][]*Node, k PackageURL, p *Node) = (k in m) && (exists j int :: 0 <= j && j < len(m[k]) && m[k][j] == p)
+//@ func NodeList.indexNodesByPurl
+//@   props C11, C16
+//@   assigns \nothing
+//@   requires [C16:pre] validNL(nl)
+//@   ensures [C16:purlIndex:shape] result != nil && fresh(result) && (forall k PackageURL :: (k in result) ==> cap(result[k]) == 0 || fresh(arr(result[k])))
+//@   ensures [C16:purlIndex:sound] forall k PackageURL, j int :: (k in result) && 0 <= j && j < len(result[k]) ==> result[k][j] != nil && (result[k][j] in elems(nl.Nodes)) && k != "" && purlOf(result[k][j]) == k
+//@   ensures [C16:purlIndex:complete] forall i int :: 0 <= i && i < len(nl.Nodes) && purlOf(nl.Nodes[i]) != "" ==> inPBucket(result, purlOf(nl.Nodes[i]), nl.Nodes[i])
+//@   ensures [C16:purlIndex:nonEmpty] forall k PackageURL :: (k in result) ==> len(result[k]) >= 1
+//@   invariant L0: [C16:inv] forall i int :: 0 <= i && i < _i && purlOf(nl.Nodes[i]) != "" ==> inPBucket(ret, purlOf(nl.Nodes[i]), nl.Nodes[i])
+//@   invariant L0: [C16:inv] forall k PackageURL :: (k in ret) ==> len(ret[k]) >= 1
+//@   invariant L0: ret != nil && fresh(ret) && (forall k PackageURL :: (k in ret) ==> cap(ret[k]) == 0 || fresh(arr(ret[k])))
+//@   invariant L0: [C16:inv] forall k1 PackageURL, k2 PackageURL :: (k1 in ret) && (k2 in ret) && k1 != k2 ==> cap(ret[k1]) == 0 || arr(ret[k1]) != arr(ret[k2])
+//@   invariant L0: [C16:inv] forall k PackageURL :: (k in ret) ==> 0 <= len(ret[k]) && len(ret[k]) <= cap(ret[k]) && allocated(arr(ret[k]))
+//@   invariant L0: [C16:inv] forall k PackageURL, j int :: (k in ret) && 0 <= j && j < len(ret[k]) ==> ret[k][j] != nil && (ret[k][j] in elems(nl.Nodes)) && k != "" && purlOf(ret[k][j]) == k
 
 // ---- traversal ----
 
@@ -581,6 +646,10 @@ package sbom
 
 // two node lists whose slices do not share backing arrays (operands are separated)
 //@ pred separatedNL(a *NodeList, b *NodeList) = a != b && (arr(a.Nodes) == nil || arr(a.Nodes) != arr(b.Nodes)) && (arr(a.Edges) == nil || arr(a.Edges) != arr(b.Edges)) && (arr(a.RootElements) == nil || arr(a.RootElements) != arr(b.RootElements))
+
+// identifiers identify nodes: two entries of the list with the same identifier are the same node
+// (idowner is an uninterpreted ghost function: the precondition has a model exactly when that holds)
+//@ pred uniqueById(nl *NodeList) = forall p *Node :: (p in elems(nl.Nodes)) ==> idowner(nl, p.Id) == p
 
 // a node list without nil entries
 //@ pred validNL(nl *NodeList) = nl != nil && !(nil in elems(nl.Nodes)) && !(nil in elems(nl.Edges))
